@@ -78,7 +78,7 @@ var wildBodies = []string{
 	`<!-- a --! b -->{{$.S0}}`, `<!-- x --!{{$.S0}}-->`, `<!--{{$.S0}}--!`, `<!-- --!`, `<!----!--->x`, `<p><!-- c --! --!> d -->{{$.S0}}</p>`,
 }
 
-var ahBodies = []string{``, `tr`, ` bookmark`, `:`, `quest;`, `amp`, `/b`, `x`, `{{$.S0}}`, `x{{$.S1}}`, `{{if $.C0}}{{end}}`, `?q=`, `#`, `.`, `%2`, ` `, `javascript:`, `{{with $.N}}{{template "ah" .}}{{end}}x`, `/{{$.S0}}{{with $.N}}{{template "ah" .}}{{end}}`}
+var ahBodies = []string{`" title="y`, `x" href="/b`, `" dir="`, `' title='`, `">x</a><a href="/c`, ``, `tr`, ` bookmark`, `:`, `quest;`, `amp`, `/b`, `x`, `{{$.S0}}`, `x{{$.S1}}`, `{{if $.C0}}{{end}}`, `?q=`, `#`, `.`, `%2`, ` `, `javascript:`, `{{with $.N}}{{template "ah" .}}{{end}}x`, `/{{$.S0}}{{with $.N}}{{template "ah" .}}{{end}}`}
 
 // ahSites are attribute values with a call (@) of the helper "ah".
 var ahSites = []string{
@@ -87,6 +87,7 @@ var ahSites = []string{
 	`<a href="{{if $.C0}}{{else}}java{{end}}@">x</a>`, `<a href="ja@">x</a>`, `<a href="javascript:alert(@)">x</a>`, `<a href="/b c/@">x</a>`, `<a href="/p?q=%@">x</a>`, `<a href="/p?q=@">x</a>`, `<a href="/p#@">x</a>`,
 	`<p dir="l@">x</p>`, `<p dir="@">x</p>`, `<p dir="{{$.S1}}@">x</p>`, `<p dir="{{if $.C0}}{{else}}x{{end}}@">x</p>`, `<img srcset="/a@">`, `<img srcset="{{$.S0}}@">`, `<img srcset="@">`,
 	`<link rel="icon@" href="{{$.S2}}">`, `<link rel="stylesheet@" href="{{$.S2}}">`, `<link rel="{{$.S1}}@" href="{{$.S2}}">`, `<link rel="@" href="{{$.S2}}">`,
+	`<p title="a long static prefix of the value @">x</p>`, `<a href="/a/long/static/prefix/of/the/value/@">x</a>`, `<p dir="ltr and more text@">x</p>`,
 	`<p title="x@">x</p>`, `<p title="{{$.S0}}@{{$.S1}}">x</p>`, `<p title="{{if $.C0}}{{$.S0}}/{{else}}{{$.S0}}?{{end}}@">x</p>`, `<p style="color:red;&am@">x</p>`, `<p style="@">x</p>`,
 	`<script src="/a/.@"></script>`, `<script src="https://example.com@"></script>`, `<script src="https://example.com/@"></script>`, `<iframe src="/a/@./b"></iframe>`,
 	`<s{{/**/}}cript>@</script>`, `<p>@</p>`, `<textarea>@</textarea>`, `<object>@</object>`, `<object><b>@</b></object>`,
